@@ -57,11 +57,60 @@ func resetGlobals(seqStrings bool) {
 	ufLits = map[string]*Term{}
 	patCache = map[[2]int][]idxPattern{}
 	ufPosCache = map[[2]int][]string{}
+	boundCache = map[[2]int][]*Term{}
 	selSortCache = map[[2]int]map[string]bool{}
 	strFunsDeclared = false
 	selectorOf = map[string]selInfo{"root": {"mkloc", 0}, "path": {"mkloc", 1}, "sarr": {"mkslice", 0}, "soff": {"mkslice", 1},
 		"slen": {"mkslice", 2}, "scap": {"mkslice", 3}, "ppar": {"pfld", 0}, "pfid": {"pfld", 1}, "ppar2": {"pidx", 0}, "pix": {"pidx", 1}}
 	setStringMode(seqStrings)
+}
+
+// savedCtx is a snapshot of the per-function term context: the staged solving pipeline comes
+// back to a function's obligations (to instantiate more) after other functions have been translated.
+type savedCtx struct {
+	TC                                  *TermCtx
+	True, False                         *Term
+	PNil, NilLoc, NilSlc, NilFace       *Term
+	axiomsBySym                         map[string][]*Term
+	structByKey                         map[string]*structInfo
+	nextFid                             int
+	fidName                             map[int]string
+	typeIDs                             map[string]int
+	typeByID                            map[int]types.Type
+	declaredSorts                       map[string]bool
+	f64Consts                           map[string]*Term
+	opaqueZero                          map[string]*Term
+	globalIDs                           map[*ssa.Global]int64
+	funcIDs                             map[*ssa.Function]int64
+	recSpecDone                         map[string]bool
+	recDefs                             map[string]*recDef
+	recPass1                            map[string]bool
+	recSpecMem                          map[string][][2]string
+	bitAxioms                           map[int]*Term
+	symCache                            map[int]map[string]bool
+	ufLits                              map[string]*Term
+	patCache                            map[[2]int][]idxPattern
+	ufPosCache                          map[[2]int][]string
+	boundCache                          map[[2]int][]*Term
+	selSortCache                        map[[2]int]map[string]bool
+	strFunsDeclared                     bool
+	selectorOf                          map[string]selInfo
+	StrSort                             string
+}
+
+func saveGlobals() *savedCtx {
+	return &savedCtx{TC, True, False, PNil, NilLoc, NilSlc, NilFace, axiomsBySym, structByKey, nextFid, fidName, typeIDs, typeByID,
+		declaredSorts, f64Consts, opaqueZero, globalIDs, funcIDs, recSpecDone, recDefs, recPass1, recSpecMem, bitAxioms, symCache,
+		ufLits, patCache, ufPosCache, boundCache, selSortCache, strFunsDeclared, selectorOf, StrSort}
+}
+
+func restoreGlobals(c *savedCtx) {
+	TC, True, False, PNil, NilLoc, NilSlc, NilFace = c.TC, c.True, c.False, c.PNil, c.NilLoc, c.NilSlc, c.NilFace
+	axiomsBySym, structByKey, nextFid, fidName, typeIDs, typeByID = c.axiomsBySym, c.structByKey, c.nextFid, c.fidName, c.typeIDs, c.typeByID
+	declaredSorts, f64Consts, opaqueZero, globalIDs, funcIDs = c.declaredSorts, c.f64Consts, c.opaqueZero, c.globalIDs, c.funcIDs
+	recSpecDone, recDefs, recPass1, recSpecMem, bitAxioms, symCache = c.recSpecDone, c.recDefs, c.recPass1, c.recSpecMem, c.bitAxioms, c.symCache
+	ufLits, patCache, ufPosCache, boundCache, selSortCache = c.ufLits, c.patCache, c.ufPosCache, c.boundCache, c.selSortCache
+	strFunsDeclared, selectorOf, StrSort = c.strFunsDeclared, c.selectorOf, c.StrSort
 }
 
 type axiom struct {
